@@ -125,7 +125,7 @@ Definition env_base_burn (o : op) : Z :=
 
 Definition env_locked_mint (o : op) : Z :=
   match o with
-  | EnterFarm _ _ _ _ e | ExitFarm _ _ _ e | ClaimRew _ _ _ e => snd (v_rew e)
+  | EnterFarm _ _ _ _ e | ExitFarm _ _ _ e | ClaimRew _ _ _ e | MergeWfm _ _ _ e => snd (v_rew e)
   | _ => 0
   end.
 
